@@ -1189,6 +1189,9 @@ func cwFindingTags(recs []cwStepRec) []string {
 // the scripted caller has sent no reset and the connection is alive: SendTrailer's write is a select between
 // the expired context and the writer, so the trailer is dropped about half of the time.
 func cwDeadlineTag(recs []cwStepRec) string {
+	if t := cwDeadlineTagE2E(recs); t != "" {
+		return t
+	}
 	if len(recs) == 0 || recs[0].Step.Op != "cli" {
 		return ""
 	}
@@ -1214,6 +1217,47 @@ func cwDeadlineTag(recs []cwStepRec) string {
 						if !reset && recs[0].Step.D > 0 {
 							return "sig:trailer-lost-on-handler-deadline"
 						}
+					}
+				}
+			}
+		}
+	}
+	return ""
+}
+
+// the same defect reached end to end: the real client's RST_STREAM is lost (exactly that Write is refused), so the
+// server has seen no reset when the handler, whose context carries the call's deadline (GRPC-Timeout), returns after
+// that deadline has expired, connection alive.
+func cwDeadlineTagE2E(recs []cwStepRec) string {
+	calls := 0
+	withDeadline := map[int]bool{}
+	wfail, lost, ticked := false, false, false
+	for i, r := range recs {
+		switch r.Step.Op {
+		case "cli", "srvfail", "failread":
+			return ""
+		case "open", "unary":
+			if r.Step.Op == "open" && r.Step.D > 0 {
+				withDeadline[calls] = true
+			}
+			calls++
+		case "wfail":
+			wfail = r.Step.B != 0
+		case "tick":
+			ticked = true
+			if wfail {
+				lost = true
+			}
+		}
+		if !lost || !ticked || i == 0 {
+			continue
+		}
+		for _, e := range r.S.HEvents {
+			var c int
+			if _, err := fmt.Sscanf(e, "HReturn %d", &c); err == nil && withDeadline[c] {
+				for _, h := range recs[i-1].S.HCtx {
+					if h == fmt.Sprintf("(%d, true)", c) {
+						return "sig:trailer-lost-on-handler-deadline"
 					}
 				}
 			}
